@@ -1,4 +1,5 @@
 import ImathVerif.Spec.MatSpec
+import Mathlib.Tactic.SplitIfs
 /-!
 # Specifications for C09 — transform builders and frame builders
 
@@ -85,6 +86,27 @@ def rodrigues (s c : α) (u p : V3 α) : V3 α :=
   vadd (vadd (smul c p) (smul ((1 - c) * dot u p) u)) (smul s (cross u p))
 end Axis
 
+/-- rows of the axis/angle matrix `setAxisAngle` writes, for a UNIT axis `u` and an angle with sine `s`, cosine `c` -/
+def aaRow0 {α : Type} [CommRing α] (s c : α) (u : V3 α) : V3 α :=
+  ⟨u.x * u.x * (1 - c) + c, u.x * u.y * (1 - c) + u.z * s, u.x * u.z * (1 - c) - u.y * s⟩
+def aaRow1 {α : Type} [CommRing α] (s c : α) (u : V3 α) : V3 α :=
+  ⟨u.x * u.y * (1 - c) - u.z * s, u.y * u.y * (1 - c) + c, u.y * u.z * (1 - c) + u.x * s⟩
+def aaRow2 {α : Type} [CommRing α] (s c : α) (u : V3 α) : V3 α :=
+  ⟨u.x * u.z * (1 - c) + u.y * s, u.y * u.z * (1 - c) - u.x * s, u.z * u.z * (1 - c) + c⟩
+/-- `Matrix44::setAxisAngle (axis, angle)` for an axis of non-zero length: the axis/angle matrix of the normalised axis -/
+def axisAngleM44 {α : Type} [Field α] [DecidableEq α] (len : V3 α → α) (s c : α) (axis : V3 α) : M44 α :=
+  frameM44 (aaRow0 s c (nrm len axis)) (aaRow1 s c (nrm len axis)) (aaRow2 s c (nrm len axis)) ⟨0, 0, 0⟩
+/-- translation matrix (row-vector convention) -/
+def transMat {α : Type} [Zero α] [One α] (v : V3 α) : Matrix (Fin 4) (Fin 4) α :=
+  !![1, 0, 0, 0; 0, 1, 0, 0; 0, 0, 1, 0; v.x, v.y, v.z, 1]
+/-- `Vec3::normalize()` (in place): unchanged when the length is zero -/
+def nrmIP {α : Type} [Div α] [Zero α] [DecidableEq α] (len : V3 α → α) (v : V3 α) : V3 α :=
+  if len v = 0 then v else ⟨v.x / len v, v.y / len v, v.z / len v⟩
+
+/-- closes `extracted decision tree = hand-written spec` goals after both sides are unfolded -/
+macro "tree_eq" : tactic =>
+  `(tactic| (split_ifs <;> first | rfl | (simp only [*, if_true, if_false]; done) | (simp [*]; done) | (simp_all; done)))
+
 /-- documented behaviour of `alignZAxisWithTargetDir (result, targetDir, upDir)`:
 zero target → +z; zero up → +y; up ∥ target → `target × x̂`, or `target × ẑ` when that vanishes too;
 rows = normalised `up × target`, `target × (up × target)`, `target`. -/
@@ -98,5 +120,104 @@ def alignZSpec {α : Type} [Field α] [DecidableEq α] (len : V3 α → α) (tar
   let perp := cross u t
   let upd := cross t perp
   frameM44 (nrm len perp) (nrm len upd) (nrm len t) ⟨0, 0, 0⟩
+
+/-! ## documented behaviour of the other frame builders (`len` stands for `Vec3::length`) -/
+section FrameSpecs
+variable {α : Type} [Field α] [LinearOrder α]
+
+/-- `computeLocalFrame (p, xDir, normal)`: `x̂ = xDir^`, `ŷ = (normal × x̂)^`, `ẑ = (x̂ × ŷ)^` (in-place normalisations), origin `p` -/
+def computeLocalFrameSpec (len : V3 α → α) (p xDir normal : V3 α) : M44 α :=
+  let x := nrmIP len xDir
+  let y := nrmIP len (cross normal x)
+  let z := nrmIP len (cross x y)
+  frameM44 x y z p
+
+/-- the coordinate direction chosen by `firstFrame` when the three points are collinear: the axis along which the
+tangent has its smallest component -/
+def ffAxis (t : V3 α) : V3 α :=
+  if sabs t.x < sabs t.y then (if sabs t.z < sabs t.x then ⟨0, 0, 1⟩ else ⟨1, 0, 0⟩)
+  else (if sabs t.z < sabs t.y then ⟨0, 0, 1⟩ else ⟨0, 1, 0⟩)
+
+/-- `firstFrame (pi, pj, pk)`: tangent `(pj − pi)^` (`domain_error` when `pi = pj`), normal `(t × (pk − pi))^` or, for collinear
+points, `(t × ffAxis t)^`, binormal `t × n`, origin `pi` -/
+def firstFrameSpec (len : V3 α → α) (pi pj pk : V3 α) : Except Exc (M44 α) :=
+  let d := vsub pj pi
+  if len d = 0 then .error Exc.domainError
+  else
+    let t : V3 α := ⟨d.x / len d, d.y / len d, d.z / len d⟩
+    let n0 := nrmIP len (cross t (vsub pk pi))
+    let n := if len n0 = 0 then nrmIP len (cross t (ffAxis t)) else n0
+    .ok (frameM44 t n (cross t n) pi)
+
+/-- the transform `nextFrame` multiplies onto the previous frame (from the right: applied AFTER `Mi`): translate by `−pi`, turn about
+`ti^ × tj^` by `acos (clamp (ti^·tj^))`, translate by `pj` — or just translate by `pj − pi` when a tangent is zero, the tangents are
+parallel, or the angle is zero -/
+def nextFrameStep (len : V3 α → α) (sin cos acos : α → α) (pi pj ti tj : V3 α) : Matrix (Fin 4) (Fin 4) α :=
+  let fi : V3 α := ⟨ti.x / len ti, ti.y / len ti, ti.z / len ti⟩
+  let fj : V3 α := ⟨tj.x / len tj, tj.y / len tj, tj.z / len tj⟩
+  let d0 := dot fi fj
+  let d := if 1 < d0 then 1 else if d0 < -1 then -1 else d0
+  if ¬ len ti = 0 ∧ ¬ len tj = 0 ∧ ¬ len (cross fi fj) = 0 ∧ ¬ acos d = 0 then
+    transMat (vneg pi) * (axisAngleM44 len (sin (acos d)) (cos (acos d)) (cross fi fj)).toMat * transMat pj
+  else transMat (vsub pj pi)
+
+/-- the rotation `nextFrame` applies to the axes of the previous frame -/
+def nextFrameRot (len : V3 α → α) (sin cos acos : α → α) (ti tj : V3 α) : Matrix (Fin 3) (Fin 3) α :=
+  let fi : V3 α := ⟨ti.x / len ti, ti.y / len ti, ti.z / len ti⟩
+  let fj : V3 α := ⟨tj.x / len tj, tj.y / len tj, tj.z / len tj⟩
+  let d0 := dot fi fj
+  let d := if 1 < d0 then 1 else if d0 < -1 then -1 else d0
+  if ¬ len ti = 0 ∧ ¬ len tj = 0 ∧ ¬ len (cross fi fj) = 0 ∧ ¬ acos d = 0 then
+    rot3 (axisAngleM44 len (sin (acos d)) (cos (acos d)) (cross fi fj))
+  else 1
+
+/-- what is assumed of `acos` (with `sin`, `cos`) for the alignment statement; real `arccos` satisfies it -/
+def AcosSpec (sin cos acos : α → α) : Prop :=
+  (∀ x, sin x ^ 2 + cos x ^ 2 = 1) ∧ cos 0 = 1 ∧ ∀ x, -1 ≤ x → x ≤ 1 → cos (acos x) = x ∧ 0 ≤ sin (acos x)
+
+/-- the degrees→radians factor used by `addOffset`: the double nearest to π/180, as an exact rational -/
+def degToRad : α := (5030569068109113 : α) / 288230376151711744
+
+/-- Hamilton product (`Quat::operator*=`) -/
+def qmul (a b : Quat α) : Quat α :=
+  ⟨a.r * b.r - (a.v.x * b.v.x + a.v.y * b.v.y + a.v.z * b.v.z),
+   ⟨a.r * b.v.x + a.v.x * b.r + (a.v.y * b.v.z - a.v.z * b.v.y),
+    a.r * b.v.y + a.v.y * b.r + (a.v.z * b.v.x - a.v.x * b.v.z),
+    a.r * b.v.z + a.v.z * b.r + (a.v.x * b.v.y - a.v.y * b.v.x)⟩⟩
+
+/-- `Quat::setRotationInternal(f0, t0, q)`: `h0 = (f0 + t0).normalized(); q.r = f0 ^ h0; q.v = f0 % h0` -/
+def qInternal (len : V3 α → α) (f0 t0 : V3 α) : Quat α :=
+  ⟨dot f0 (nrm len (vadd f0 t0)), cross f0 (nrm len (vadd f0 t0))⟩
+
+/-- the axis chosen by `Quat::setRotation` for opposite directions: `f0 ×` the coordinate axis along which `f0` is smallest -/
+def qOppositeAxis (len : V3 α → α) (f0 : V3 α) : V3 α :=
+  if f0.x * f0.x ≤ f0.y * f0.y ∧ f0.x * f0.x ≤ f0.z * f0.z then nrm len (cross f0 ⟨1, 0, 0⟩)
+  else if f0.y * f0.y ≤ f0.z * f0.z then nrm len (cross f0 ⟨0, 1, 0⟩)
+  else nrm len (cross f0 ⟨0, 0, 1⟩)
+
+/-- `Quat::setRotation(from, to)` as documented in ImathQuat.h: angle ≤ π/2 — one half-way quaternion; larger angles — product of two
+half rotations through `h0 = (f0 + t0)^`; `|f0 + t0|² ≤ (8 ε)²` (opposite to within the rounding of the two normalisations, in particular
+exactly opposite) — half-turn about an axis perpendicular to `f0` -/
+def quatSetRotationSpec (len : V3 α → α) (teps : α) (fromDir toDir : V3 α) : Quat α :=
+  let f0 := nrm len fromDir
+  let t0 := nrm len toDir
+  if 0 ≤ dot f0 t0 then qInternal len f0 t0
+  else
+    let s := vadd f0 t0
+    let h0 : V3 α := if (8 * teps) * (8 * teps) < dot s s then nrm len s else ⟨0, 0, 0⟩
+    if dot h0 h0 = 0 then ⟨0, qOppositeAxis len f0⟩
+    else qmul (qInternal len f0 h0) (qInternal len h0 t0)
+
+/-- rows of `Quat::toMatrix44` -/
+def qRow0 (q : Quat α) : V3 α := ⟨1 - 2 * (q.v.y * q.v.y + q.v.z * q.v.z), 2 * (q.v.x * q.v.y + q.v.z * q.r), 2 * (q.v.z * q.v.x - q.v.y * q.r)⟩
+def qRow1 (q : Quat α) : V3 α := ⟨2 * (q.v.x * q.v.y - q.v.z * q.r), 1 - 2 * (q.v.z * q.v.z + q.v.x * q.v.x), 2 * (q.v.y * q.v.z + q.v.x * q.r)⟩
+def qRow2 (q : Quat α) : V3 α := ⟨2 * (q.v.z * q.v.x + q.v.y * q.r), 2 * (q.v.y * q.v.z - q.v.x * q.r), 1 - 2 * (q.v.y * q.v.y + q.v.x * q.v.x)⟩
+/-- `Quat::toMatrix44 ()` -/
+def quatM44 (q : Quat α) : M44 α := frameM44 (qRow0 q) (qRow1 q) (qRow2 q) ⟨0, 0, 0⟩
+/-- `rotationMatrix (from, to)` as documented -/
+def rotationMatrixSpec (len : V3 α → α) (teps : α) (fromDir toDir : V3 α) : M44 α :=
+  quatM44 (quatSetRotationSpec len teps fromDir toDir)
+
+end FrameSpecs
 
 end ImathVerif.C09
